@@ -695,3 +695,146 @@ Corollary head_arg_get_spec :
   forall t cvs cvs1 code, compile_head_arg t cvs = (cvs1, code) -> wf_term t = true ->
     forall ext vb a, get_spec code vb [a] [inst (cvs1 ++ ext) vb t].
 Proof. intros t cvs cvs1 code H Hw ext vb a. exact (proj2 (all_head_sem t cvs cvs1 code H Hw ext) vb a). Qed.
+
+(** ** body goals: the Put instructions build the renamed arguments, opCall calls *)
+Fixpoint run_put (code : list instr) (vb : list Z) (args : list term) (astack : list frame) : option (list term * list frame) :=
+  match code with
+  | [] => Some (args, astack)
+  | op :: code' =>
+      match op with
+      | IPutConst c => run_put code' vb (args ++ [c]) astack
+      | IPutVar i => run_put code' vb (args ++ [Var (nth i vb 0)]) astack
+      | IPutFunctor g n => run_put code' vb [] (FPut args g :: astack)
+      | IPop => match astack with
+                | FPut parent g :: astack' => run_put code' vb (parent ++ [Cmp g args]) astack'
+                | _ => None
+                end
+      | _ => None
+      end
+  end.
+
+Lemma run_put_app c1 : forall c2 vb args astack,
+  run_put (c1 ++ c2) vb args astack =
+  match run_put c1 vb args astack with Some (args', astack') => run_put c2 vb args' astack' | None => None end.
+Proof.
+  induction c1 as [|op c1 IH]; intros c2 vb args astack; [reflexivity|].
+  cbn [app run_put]. destruct op; try reflexivity; try apply IH.
+  destruct astack as [|[rest|parent g] astack']; try reflexivity. apply IH.
+Qed.
+
+Definition body_sem (t : term) : Prop :=
+  forall cvs cvs1 code, compile_body_arg t cvs = (cvs1, code) ->
+    forall ext vb args astack, run_put code vb args astack = Some (args ++ [inst (cvs1 ++ ext) vb t], astack).
+
+Lemma body_arg_extends t cvs cvs1 code : compile_body_arg t cvs = (cvs1, code) -> exists ext, cvs1 = cvs ++ ext.
+Proof. intros H. destruct (body_all_good t cvs cvs1 code H) as [He _]. exact He. Qed.
+
+Lemma body_fold_extends : forall ts cvs c0 cvs1 code,
+  fold_left (fun acc a => let '(vs0, c0) := acc in let '(vs1, c1) := compile_body_arg a vs0 in (vs1, c0 ++ c1)) ts (cvs, c0) = (cvs1, code) ->
+  exists ext0, cvs1 = cvs ++ ext0.
+Proof.
+  induction ts as [|t ts IH]; intros cvs c0 cvs1 code H; cbn [fold_left] in H.
+  - inversion H; subst. exists []. rewrite app_nil_r. reflexivity.
+  - destruct (compile_body_arg t cvs) as [cvsA cA] eqn:Hc. destruct (body_arg_extends _ _ _ _ Hc) as [e1 ->].
+    destruct (IH _ _ _ _ H) as [e2 ->]. exists (e1 ++ e2). rewrite app_assoc. reflexivity.
+Qed.
+
+Lemma body_fold_sem : forall ts, Forall body_sem ts ->
+  forall cvs c0 cvs1 code,
+    fold_left (fun acc a => let '(vs0, c0) := acc in let '(vs1, c1) := compile_body_arg a vs0 in (vs1, c0 ++ c1)) ts (cvs, c0) = (cvs1, code) ->
+    exists code1, code = c0 ++ code1 /\
+      forall ext vb args astack, run_put code1 vb args astack = Some (args ++ map (inst (cvs1 ++ ext) vb) ts, astack).
+Proof.
+  induction 1 as [|t ts Ht Hts IH]; intros cvs c0 cvs1 code Hf; cbn [fold_left] in Hf.
+  - inversion Hf; subst. exists []. rewrite app_nil_r. split; [reflexivity|]. intros. cbn. rewrite app_nil_r. reflexivity.
+  - destruct (compile_body_arg t cvs) as [cvsA cA] eqn:Hc.
+    destruct (body_fold_extends _ _ _ _ _ Hf) as [ext1 Hext1].
+    destruct (IH _ _ _ _ Hf) as (code1' & -> & Hrest).
+    exists (cA ++ code1'). split; [rewrite app_assoc; reflexivity|].
+    intros ext vb args astack. rewrite run_put_app.
+    pose proof (Ht cvs cvsA cA Hc (ext1 ++ ext) vb args astack) as H1. rewrite app_assoc, <- Hext1 in H1. rewrite H1.
+    rewrite (Hrest ext). cbn [map]. rewrite <- app_assoc. reflexivity.
+Qed.
+
+Lemma compile_body_cmp_eq g ts cvs :
+  compile_body_arg (Cmp g ts) cvs =
+  let '(cvs1, code) := fold_left (fun acc a => let '(vs0, c0) := acc in
+                                              let '(vs1, c1) := compile_body_arg a vs0 in (vs1, c0 ++ c1)) ts (cvs, []) in
+  (cvs1, IPutFunctor g (List.length ts) :: code ++ [IPop]).
+Proof. reflexivity. Qed.
+
+Theorem all_body_sem : forall t, body_sem t.
+Proof.
+  induction t as [v|a|z|b|g ts IH] using term_ind'; intros cvs cvs1 code Hcomp ext vb args astack.
+  - cbn [compile_body_arg] in Hcomp. destruct (var_offset cvs v) as [cvs' i] eqn:Hv. inversion Hcomp; subst.
+    unfold inst, rho. cbn [apply run_put]. rewrite (var_offset_index _ _ _ _ ext Hv). reflexivity.
+  - inversion Hcomp; subst. reflexivity.
+  - inversion Hcomp; subst. reflexivity.
+  - inversion Hcomp; subst. reflexivity.
+  - rewrite compile_body_cmp_eq in Hcomp. destruct (fold_left _ ts (cvs, [])) as [cvsF codeF] eqn:Hf.
+    inversion Hcomp; subst cvs1 code. clear Hcomp.
+    destruct (body_fold_sem ts IH _ _ _ _ Hf) as (code1 & Hcode & Hrest). cbn [app] in Hcode. subst codeF.
+    cbn [run_put]. rewrite run_put_app, (Hrest ext). cbn [app run_put]. reflexivity.
+Qed.
+
+Section ExecPut.
+  Variables (vs : list Z) (k : cont) (cutp : Z).
+
+  Lemma exec_put_step f op pc args astack e st : poisoned e = false ->
+    match op with
+    | IPutConst c => exec (S f) (op :: pc) vs k args astack e cutp st = exec f pc vs k (args ++ [c]) astack e cutp st
+    | IPutVar i => exec (S f) (op :: pc) vs k args astack e cutp st = exec f pc vs k (args ++ [Var (nth i vs 0)]) astack e cutp st
+    | IPutFunctor g n => exec (S f) (op :: pc) vs k args astack e cutp st = exec f pc vs k [] (FPut args g :: astack) e cutp st
+    | ICall g n => exec (S f) (op :: pc) vs k args astack e cutp st = arrive f g args (KExec pc vs k cutp) e st
+    | _ => True
+    end.
+  Proof. intros Hp. destruct op; try exact I; cbn [exec]; rewrite Hp; reflexivity. Qed.
+
+  Theorem exec_put : forall code f rest args astack e st,
+    poisoned e = false ->
+    match run_put code vs args astack with
+    | Some (args', astack') =>
+        exec (List.length code + f) (code ++ rest) vs k args astack e cutp st = exec f rest vs k args' astack' e cutp st
+    | None => True
+    end.
+  Proof.
+    induction code as [|op code IH]; intros f rest args astack e st Hp; [reflexivity|].
+    cbn [run_put List.length app Nat.add]. pose proof (exec_put_step (List.length code + f) op (code ++ rest) args astack e st Hp) as Hs.
+    destruct op; try exact I.
+    - rewrite Hs. apply IH. exact Hp.
+    - rewrite Hs. apply IH. exact Hp.
+    - rewrite Hs. apply IH. exact Hp.
+    - rewrite exec_pop by exact Hp. destruct astack as [|[rest'|parent g] astack']; try exact I. apply IH. exact Hp.
+  Qed.
+
+  (** a body goal that is not a control construct compiled in line: the machine
+      arrives at the goal's predicate with the goal's arguments renamed by the
+      frame, and the rest of the clause as continuation *)
+  Theorem body_goal_is_call :
+    forall g cvs cvs1 pcode, compile_pred1 g cvs = Some (cvs1, pcode) -> g <> Atom "!" ->
+    forall ext f rest e st, poisoned e = false ->
+      exec (List.length pcode + f) (pcode ++ rest) vs k [] [] e cutp st =
+      match g with
+      | Var v => arrive f "call" [inst (cvs1 ++ ext) vs g] (KExec rest vs k cutp) e st
+      | Atom a => arrive f a [] (KExec rest vs k cutp) e st
+      | Cmp name gargs => arrive f name (map (inst (cvs1 ++ ext) vs) gargs) (KExec rest vs k cutp) e st
+      | _ => (PErr EFuel, st)
+      end.
+  Proof.
+    intros g cvs cvs1 pcode Hcomp Hcut ext f rest e st Hp. destruct g as [v|a|z|b|name gargs]; cbn [compile_pred1] in Hcomp; try discriminate.
+    - (* a variable goal: call(V) *)
+      destruct (compile_body_arg (Var v) cvs) as [cvs' c] eqn:Hc. inversion Hcomp; subst cvs1 pcode. clear Hcomp.
+      pose proof (all_body_sem (Var v) cvs cvs' c Hc ext vs [] []) as Hr.
+      pose proof (exec_put c (S f) (ICall "call" 1 :: rest) [] [] e st Hp) as He. rewrite Hr in He.
+      rewrite <- app_assoc, app_length. cbn [List.length app]. rewrite <- Nat.add_assoc. cbn [Nat.add]. rewrite He.
+      pose proof (exec_put_step f (ICall "call" 1) rest ([] ++ [inst (cvs' ++ ext) vs (Var v)]) [] e st Hp) as Hs. cbn beta iota in Hs. exact Hs.
+    - destruct (String.eqb_spec a "!") as [->|Hne]; [congruence|]. inversion Hcomp; subst cvs1 pcode.
+      cbn [List.length app Nat.add]. exact (exec_put_step f (ICall a 0) rest [] [] e st Hp).
+    - destruct (fold_left _ gargs (cvs, [])) as [cvsF codeF] eqn:Hf. inversion Hcomp; subst cvs1 pcode. clear Hcomp.
+      destruct (body_fold_sem gargs ltac:(apply Forall_forall; intros; apply all_body_sem) _ _ _ _ Hf) as (code1 & Hcode & Hrest).
+      cbn [app] in Hcode. subst codeF.
+      pose proof (exec_put code1 (S f) (ICall name (List.length gargs) :: rest) [] [] e st Hp) as He. rewrite (Hrest ext vs [] []) in He.
+      rewrite <- app_assoc, app_length. cbn [List.length app]. rewrite <- Nat.add_assoc. cbn [Nat.add]. rewrite He.
+      exact (exec_put_step f (ICall name (List.length gargs)) rest ([] ++ map (inst (cvsF ++ ext) vs) gargs) [] e st Hp).
+  Qed.
+End ExecPut.
